@@ -17,6 +17,7 @@
 EXTENDS ServePipeline
 
 CONSTANT MemoBound   \* TRUE: the code. FALSE: binding outcome not cached (mutant, for non-vacuity)
+CONSTANT SampleKinds \* TRUE: a representative subset of the request kinds (quick tier of the history export)
 
 (* A request kind: [op, cs, cu, ctype, accept]                              *)
 (*   cu    : a user | "bad" (authenticator rejects) ; cs = "-" : no credential *)
@@ -33,7 +34,8 @@ Kinds ==
            ctype : {"json", "text", "xml", "bad", "absent"}, accept : {"json", "text", "none"}] :
       /\ (k.op \in {"opB", "opE"} => k.cs = NoneStr /\ k.cu = NoneStr)
       /\ (k.op \notin {"opB", "opE"} => <<k.cs, k.cu>> \in {<<"key", "u1">>, <<"tok", "u2">>, <<"key", "bad">>, <<NoneStr, NoneStr>>})
-      /\ (k.op = "opC" => k.ctype = "absent") }
+      /\ (k.op = "opC" => k.ctype = "absent")
+      /\ (SampleKinds => k.accept # "text" /\ k.ctype \in {"json", "xml", "bad", "absent"}) }
 
 FormatAccessors == {"ResponseFormat", "ResponseFormatText", "ResponseFormatCharset"}
 Accessors == {"RouteInfo", "ContentType", "Authorize", "BindAndValidate", "ResetAuth"} \cup FormatAccessors
